@@ -90,7 +90,7 @@ func genC20(g *Gen) any {
 	add("LocalHost", "10.0.7.1")
 	add("LocalPort", "1984")
 	if g.Bool(0.25) {
-		bad := []string{"missing-UID", "missing-PublicKey", "missing-ServerName", "missing-ProxyMethod", "bad-encryption", "missing-RemoteHost", "missing-LocalPort", "malformed", "empty-file", "bad-base64", "wrong-type"}
+		bad := []string{"missing-UID", "missing-PublicKey", "missing-ServerName", "missing-ProxyMethod", "bad-encryption", "missing-RemoteHost", "missing-LocalPort", "malformed", "empty-file", "bad-base64", "wrong-type", "long-key", "long-key", "short-key"}
 		sc.Invalid = bad[g.Rng.IntN(len(bad))]
 	}
 	g.Rng.Shuffle(len(sc.Opts), func(i, j int) { sc.Opts[i], sc.Opts[j] = sc.Opts[j], sc.Opts[i] })
@@ -219,6 +219,20 @@ func runC20(c *Ctx, scAny any) {
 		set("EncryptionMethod", "rot13")
 	case sc.Invalid == "bad-base64":
 		set("UID", "!!!not base64!!!")
+	case sc.Invalid == "long-key" || sc.Invalid == "short-key":
+		// a public key that is not 32 bytes long: the genuine key with bytes
+		// appended (33, 48 or 64 in all) or its first 31
+		for i := range opts {
+			if opts[i].Key == "PublicKey" {
+				k, _ := base64.StdEncoding.DecodeString(opts[i].Val)
+				if sc.Invalid == "short-key" {
+					k = k[:min(31, len(k))]
+				} else {
+					k = append(k, make([]byte, []int{1, 16, 32}[sc.Seed%3])...)
+				}
+				opts[i].Val = base64.StdEncoding.EncodeToString(k)
+			}
+		}
 	case sc.Invalid == "wrong-type":
 		drop("NumConn")
 		opts = append(opts, C20Opt{"NumConn", `"four"`})
@@ -400,7 +414,14 @@ func runC20(c *Ctx, scAny any) {
 	// and another method: command-line arguments take precedence
 	progOpts := append([]C20Opt(nil), opts...)
 	var extraArgs []string
-	if sc.Seed%3 == 1 {
+	// a fifth of the runs start ck-client the way Shadowsocks starts a plugin:
+	// no command line, the options in SS_PLUGIN_OPTIONS, the four addresses in
+	// SS_LOCAL_HOST/PORT and SS_REMOTE_HOST/PORT - used where the options leave
+	// them out (variant a), overridden by the options where both say something
+	// (variant b: the environment then holds wrong values); ProxyMethod defaults
+	// to shadowsocks
+	pluginMode := (sc.Seed>>16)%5 == 0
+	if !pluginMode && sc.Seed%3 == 1 {
 		for i := range progOpts {
 			switch progOpts[i].Key {
 			case "RemoteHost":
@@ -426,7 +447,11 @@ func runC20(c *Ctx, scAny any) {
 		}
 		return "", false
 	}
-	switch (sc.Seed >> 8) % 4 {
+	flagSel := (sc.Seed >> 8) % 4
+	if pluginMode {
+		flagSel = 0
+	}
+	switch flagSel {
 	case 1:
 		if v, ok := setOpt("RemotePort", "8443"); ok {
 			extraArgs = append(extraArgs, "-p", v)
@@ -440,9 +465,39 @@ func runC20(c *Ctx, scAny any) {
 			extraArgs = append(extraArgs, "-i", v)
 		}
 	}
-	if _, has := sc.get("UDP"); !has && (sc.Seed>>12)%4 == 0 {
+	if _, has := sc.get("UDP"); !has && !pluginMode && (sc.Seed>>12)%4 == 0 {
 		progOpts = append(progOpts, C20Opt{Key: "UDP", Val: "true"})
 		extraArgs = append(extraArgs, "-u=false")
+	}
+	pluginEnv := map[string]string{}
+	defer func() {
+		for _, k := range []string{"SS_LOCAL_HOST", "SS_LOCAL_PORT", "SS_REMOTE_HOST", "SS_REMOTE_PORT", "SS_PLUGIN_OPTIONS"} {
+			os.Unsetenv(k)
+		}
+	}()
+	if pluginMode {
+		envOf := map[string]string{"LocalHost": "SS_LOCAL_HOST", "LocalPort": "SS_LOCAL_PORT", "RemoteHost": "SS_REMOTE_HOST", "RemotePort": "SS_REMOTE_PORT"}
+		wrong := map[string]string{"LocalHost": "10.0.7.9", "LocalPort": "1999", "RemoteHost": "198.51.100.9", "RemotePort": "8443"}
+		var kept []C20Opt
+		for _, o := range progOpts {
+			if env, ok := envOf[o.Key]; ok {
+				if (sc.Seed>>20)%2 == 0 {
+					pluginEnv[env] = o.Val // (a) only the environment says it
+					continue
+				}
+				pluginEnv[env] = wrong[o.Key] // (b) the options win over the environment
+			}
+			if o.Key == "ProxyMethod" && o.Val == "shadowsocks" && (sc.Seed>>21)%2 == 0 {
+				continue
+			}
+			kept = append(kept, o)
+		}
+		progOpts = kept
+		if pluginEnv["SS_LOCAL_HOST"] == "" {
+			pluginMode = false // (cannot be expressed: plugin mode is recognised by SS_LOCAL_HOST)
+			progOpts = append([]C20Opt(nil), opts...)
+			pluginEnv = map[string]string{}
+		}
 	}
 	cfgArg := c20RenderSSV(progOpts)
 	if sc.Syntax == "json" {
@@ -462,6 +517,14 @@ func runC20(c *Ctx, scAny any) {
 			}
 		}()
 		os.Args = append([]string{"ck-client", "-c", cfgArg, "-verbosity", "panic"}, extraArgs...)
+		if pluginMode {
+			os.Args = []string{"ck-client", "-verbosity", "panic"}
+			pluginEnv["SS_PLUGIN_OPTIONS"] = cfgArg
+			for k, v := range pluginEnv {
+				os.Setenv(k, v)
+			}
+			c.Probe("plugin_mode")
+		}
 		flag.CommandLine = flag.NewFlagSet("ck-client", flag.ContinueOnError)
 		ckclient.Main()
 	})
